@@ -81,8 +81,19 @@ def _plan(tier, seed):
 
 
 # ------------------------------------------------------------------------------------------ worker
-def recognise(ops) -> list[str]:
-    """Independent recogniser of the documented patterns (written from the property text)."""
+# what the harness TOLD the IndexOperator constructor (atom name -> unique_indices argument; None = argument not given):
+# the recogniser must not take the operator's own word for it
+DECLARED_UNIQUE = {'IDX': {'P': None, 'Pu': True, 'Pa': None, 'Pp': None, 'P1': None}, 'EXT': {'Pw': None}}
+
+
+def recognise(ops, declared=None) -> list[str]:
+    """Independent recogniser of the documented patterns (written from the property text).
+    declared: {id(index operator): unique_indices argument given at construction} for the operators the harness built."""
+    declared = declared or {}
+
+    def told_unique(op):
+        return bool(declared[id(op)]) if id(op) in declared else bool(op.unique_indices)
+
     import jax
     import numpy as np
 
@@ -119,9 +130,9 @@ def recognise(ops) -> list[str]:
                 if jax.tree.structure(a.blocks, is_leaf=is_op) == jax.tree.structure(b.blocks, is_leaf=is_op):
                     found.append(f'adjacent block operators with the same layout {where}')
         if type(b) is TransposeOperator and b.operator is a:
-            if isinstance(a, PackOperator) or (isinstance(a, IndexOperator) and a.unique_indices):
+            if isinstance(a, PackOperator) or (isinstance(a, IndexOperator) and told_unique(a)):
                 found.append(f'P @ P.T for duplicate-free indexing/packing {where}')
-        if type(a) is TransposeOperator and a.operator is b and isinstance(b, IndexOperator) and not b.unique_indices:
+        if type(a) is TransposeOperator and a.operator is b and isinstance(b, IndexOperator) and not told_unique(b):
             arrs = [x for x in b.indices if hasattr(x, 'dtype') and np.issubdtype(np.asarray(x).dtype, np.integer)]
             non_trivial = [x for x in b.indices if not (isinstance(x, slice) and x == slice(None)) and x is not Ellipsis]
             shapes = {tuple(l.shape) for l in jax.tree.leaves(b.in_structure())}
@@ -227,7 +238,7 @@ def run(phase, cases, ctx):
                                    'detail': f'result {xstate.describe(env, res_ops)} is still reducible: {label}@{pos} -> {xstate.describe(env, nxt)} (firings {[r[0] for r in rec.log]})'})
         # (2) independent recogniser, top level and nested compositions
         for chain in [res_ops] + [c for o in res_ops for c in nested_chains(o)]:
-            for f in recognise(chain):
+            for f in recognise(chain, {id(env.atoms[n]): v for n, v in DECLARED_UNIQUE.get(dom, {}).items() if n in env.atoms}):
                 violations.append({'kind': 'pattern-left', 'case': case,
                                    'detail': f'{f} in {xstate.describe(env, chain)} (result {xstate.describe(env, res_ops)})'})
         # (2b) the normal form is a fixed point: reducing the result again must not change it
